@@ -166,6 +166,8 @@ def dispatchMacroCallArgOrValue (cfg : Cfg) (c : Char) (flags : Nat) : Prog Unit
     let firstToken := !(lastTokTyIs (← perform .lastTok) fun ty =>
       ty == .MacroVarTerm || ty == .MacroIdentifier || ty == .MacroString || ty == .RPAREN)
     if isUnicodeNameStart c || (!firstToken && isXidContinue c) then
+      -- `fix:` c30296e — a previous part of the name may have left it set (`a%*c;b`)
+      perform .clearCheckpoint
       perform .checkpoint
       eatWhile isXidContinue
       emitD .MacroString
